@@ -309,7 +309,8 @@ class RF24:
         return result
 
     def write(self, buf, ask_no_ack=False, write_only=False):
-        if not buf or len(buf) > 32:
+        is_dyn = self.dynamic_payloads
+        if is_dyn and (not buf or len(buf) > 32):
             raise ValueError("buffer length must be in range [1, 32]")
         self.clear_status_flags()
         if self._status & 1:
@@ -318,7 +319,7 @@ class RF24:
         if config & 3 != 2:
             self._reg_write(0, (config & 0x7C) | 2)
             time.sleep(0.00015)
-        if not self.dynamic_payloads:
+        if not is_dyn:
             pl_width = self.payload_length
             if len(buf) < pl_width:
                 buf = buf + b"\0" * (pl_width - len(buf))
